@@ -113,6 +113,35 @@ def r1(ctx):
     vdef = env.get('v')
     okv = vdef is not None and 'vstack' in src(vdef) and 'consensii[' in src(vdef)
     ctx.emit('C13-R1', okv, MOLECULE, vdef if vdef is not None else f, 'vote matrix v stacks the per-position count vectors', key='vote-matrix', nontrivial=False)
+    # every tallied position is decided: the positions array holds exactly the keys of the tally (re-ordering wrappers only), not a walk over
+    # some other range intersected with the tally
+    tally = None
+    if vdef is not None:
+        for n_ in ast.walk(vdef):
+            if isinstance(n_, ast.Subscript) and isinstance(n_.value, ast.Name) and n_.value.id != 'np':
+                tally = n_.value.id
+    locsrc = [s_.value for s_ in walk_no_nested(f) if isinstance(s_, ast.Assign) and any(src(t_) in ('locations', 'locations[:]') for t_ in s_.targets)
+              and not (isinstance(s_.value, ast.Call) and last_name(dotted(s_.value.func) or '') in ('empty', 'zeros'))]
+
+    def all_keys_of(e, depth=0):
+        if depth > 5 or tally is None:
+            return False
+        if isinstance(e, ast.Name):
+            if e.id == tally:
+                return True
+            dd = [s_.value for s_ in walk_no_nested(f) if isinstance(s_, ast.Assign) and len(s_.targets) == 1 and src(s_.targets[0]) == e.id]
+            return len(dd) == 1 and all_keys_of(dd[0], depth + 1)
+        if isinstance(e, ast.Call) and isinstance(e.func, ast.Attribute) and e.func.attr == 'keys' and not e.args:
+            return all_keys_of(e.func.value, depth + 1)
+        if isinstance(e, ast.Call) and last_name(dotted(e.func) or '') in ('sorted', 'list', 'tuple', 'array', 'asarray', 'fromiter', 'iter') and e.args:
+            return all_keys_of(e.args[0], depth + 1)
+        if isinstance(e, (ast.ListComp, ast.GeneratorExp)) and len(e.generators) == 1 and not e.generators[0].ifs and src(e.elt) == src(e.generators[0].target):
+            return all_keys_of(e.generators[0].iter, depth + 1)
+        return False
+    okl = bool(locsrc) and all(all_keys_of(e_) for e_ in locsrc)
+    ctx.emit('C13-R1', okl, MOLECULE, locsrc[0] if locsrc else f, f'the decided positions are all keys of the tally `{tally}`' if okl else
+             f'the decided positions `{src(locsrc[0])[:80] if locsrc else None}` are not simply all keys of the tally: tallied positions can be left without a call', key='all-tallied-positions',
+             what='get_consensus: tallied positions are dropped before the majority decision')
     bad = []
     n = 0
     try:
@@ -285,6 +314,18 @@ def r5(ctx):
         detail = f'base <- {sorted(bs) if bs else None}[{bi}], quality <- {sorted(qs) if qs else None}[{qi}] with {qpos} from {src(em["iter"])[:50]}'
     ctx.emit('C13-R5', ok, SEQUTILS, c, 'read_to_consensus_dict: ' + detail + ('' if ok else ' - base and quality are not both the stored arrays of the read at the aligned query position'),
              key='base-and-quality-same-position', what='read_to_consensus_dict: base and quality of a call come from different query positions')
+    # a read reports every aligned base, N included: whether a base votes is decided later, after the mates were compared by quality.  No
+    # condition on the way to the emission may look at the base or its quality.
+    seq_names = {f'{rd}.query_sequence', f'{rd}.query_qualities', f'{rd}.seq', f'{rd}.qual', f'{rd}.query_alignment_sequence'} | \
+        {n_ for n_, vs in defs.items() if any(v_ in (f'{rd}.query_sequence', f'{rd}.query_qualities', f'{rd}.seq', f'{rd}.qual') for v_ in vs)}
+    # (an optional filter that is off by default - `min_phred_score is None or ...` - is part of the documented interface)
+    from ..cfg import eval3 as _eval3, UNK as _UNK
+    opt_params = [a_.arg for a_, d_ in zip(g.args.args[len(g.args.args) - len(g.args.defaults):], g.args.defaults) if isinstance(d_, ast.Constant) and d_.value is None]
+    off = mk_atoms({f'{p_} is None': True for p_ in opt_params})
+    base_conds = [t_ for t_ in em['conds'] if any(src(x) in seq_names for x in ast.walk(t_)) and _eval3(t_, {}, off) is not True]
+    ctx.emit('C13-R5', not base_conds, SEQUTILS, base_conds[0] if base_conds else c, 'read_to_consensus_dict reports every aligned base of the window (no filter on the base or its quality)' if not base_conds else
+             f'read_to_consensus_dict drops calls by `{src(base_conds[0])[:70]}` before the mates are compared: a filtered N (or low quality base) no longer outvotes the other mate\'s call',
+             key='no-base-filter-per-read', what='read_to_consensus_dict filters calls by base / quality before mate arbitration')
     # the default mode: with dove_safe False no window is applied and single-end fragments are not refused
     f = ctx.fn(SEQUTILS, 'get_consensus_dictionaries')
     rcalls = [c_ for c_ in walk_no_nested(f) if isinstance(c_, ast.Call) and last_name(dotted(c_.func) or '') == 'read_to_consensus_dict' and len(c_.args) >= 3]
